@@ -505,9 +505,9 @@ PROPS = {
                 thorough=["mc_set2", "conf_set2", "conf_kb2_bytes", "replay_set2_t", "tracespec_kb2_long"], graphs=["g_set2", "g_kb2_bytes"]),
     "C02": dict(quick=["mc_set1", "conf_set1", "conf_kb1_bytes", "replay_set1_q", "tracespec_kb1"],
                 thorough=["mc_set1", "conf_set1", "conf_kb1_bytes", "replay_set1_t", "tracespec_kb1_long"], graphs=["g_set1", "g_kb1_bytes"]),
-    "C05": dict(quick=["mc_frame", "conf_words", "replay_words", "tracespec_kb2"], thorough=["mc_frame_full", "conf_words", "replay_words", "tracespec_kb2_long"],
+    "C05": dict(quick=["mc_frame", "conf_words", "replay_words"], thorough=["mc_frame_full", "conf_words", "replay_words"],
                 tables=["t_words"]),
-    "C06": dict(quick=["mc_frame", "conf_frame", "replay_frame_q", "tracespec_kb2"], thorough=["mc_frame_full", "conf_frame", "replay_frame_t", "tracespec_kb2_long"],
+    "C06": dict(quick=["mc_frame", "conf_frame", "replay_frame_q"], thorough=["mc_frame_full", "conf_frame", "replay_frame_t"],
                 graphs=["g_frame"]),
     "C07": dict(quick=["mc_set1", "mc_set2", "props_scan", "selfreplay_set1_q", "selfreplay_set2_q"],
                 thorough=["mc_set1", "mc_set2", "props_scan", "selfreplay_set1_t", "selfreplay_set2_t"], graphs=["g_set1", "g_set2"]),
